@@ -1,11 +1,157 @@
+/-
+Driver for C12 (dynamic update) and — shared — C14 (journal recovery).
+
+Case lines (a history is bracketed by `begin…`/`end`):
+  begin  <origin> <rec>*          zone built by upserting the records in order, no journal
+  beginj <origin> <rec>*          same, then `persist_to_journal` into an empty journal
+  upd P <rec>* U <rec>*           verify_prerequisites → pre_scan → update_records(.., true)
+  updf P <rec>* U <rec>*          the same message, TSIG-signed on the wire, through ZoneHandler::update
+  raw <rec>*                      update_records(.., true) alone (no prescan)
+  pre <rec>*                      verify_prerequisites alone
+  cut <k>                         recover a fresh handler from the first k journal rows
+  restart <k>                     same, and continue the history on the recovered handler
+  end
+Record token: `<name>,<type>,<class>,<ttl>,<rdata>`; rdata `-` (empty) | `s<serial>.<rest>` | `x<hex>`.
+Answer: `<stage> <result> <serial> <rows> <zone dump>`.
+-/
 import HickoryVerif.Drv.Proto
+import HickoryVerif.Model.Journal
 
 namespace HickoryVerif.Drv.C12
-open HickoryVerif HickoryVerif.Drv
+open HickoryVerif HickoryVerif.Drv HickoryVerif.Upd
 
-abbrev State := Unit
-def init : State := ()
+structure State where
+  cfg : Cfg := { origin := Name.root }
+  zone : Zone := []
+  journal : Journal := []
+  journaled : Bool := false
+  deriving Inhabited
 
-def step (s : State) (_toks : List String) : State × String := (s, "bad-op")
+def init : State := {}
+
+def parseRData (s : String) : Option RData :=
+  match s.toList with
+  | ['-'] => some .empty
+  | 's' :: rest =>
+    match (String.ofList rest).splitOn "." with
+    | [a, b] => do let a ← a.toNat?; let b ← b.toNat?; pure (.soa a b)
+    | _ => none
+  | 'x' :: rest => (parseHex (String.ofList rest)).map .bytes
+  | _ => none
+
+def parseRec (tok : String) : Option Rec :=
+  match tok.splitOn "," with
+  | [n, t, c, ttl, rd] => do
+    let n ← parseName n; let t ← t.toNat?; let c ← c.toNat?; let ttl ← ttl.toNat?
+    let rd ← parseRData rd
+    pure { name := n, rtype := t, cls := c, ttl := ttl, rdata := rd }
+  | _ => none
+
+def showRData : RData → String
+  | .empty => "-"
+  | .soa s r => s!"s{s}.{r}"
+  | .bytes b => "x" ++ toHex b
+
+def showZone (z : Zone) : String :=
+  if z.isEmpty then "-" else
+  " ".intercalate (z.map fun e =>
+    showName e.1.1 ++ "/" ++ toString e.1.2 ++ "=" ++
+      ";".intercalate (e.2.map fun r => toString r.ttl ++ ":" ++ showRData r.rdata))
+
+def showRc : Rc → String
+  | .formErr => "FORMERR" | .servFail => "SERVFAIL" | .nxDomain => "NXDOMAIN" | .notImp => "NOTIMP"
+  | .refused => "REFUSED" | .yxDomain => "YXDOMAIN" | .yxRRSet => "YXRRSET" | .nxRRSet => "NXRRSET"
+  | .notAuth => "NOTAUTH" | .notZone => "NOTZONE"
+
+def showRes : URes Bool → String
+  | .ok true => "ok1"
+  | .ok false => "ok0"
+  | .rc c => showRc c
+  | .panic _ => "panic"
+
+def showStage : Stage → String
+  | .auth => "auth" | .prereq => "prereq" | .prescan => "prescan" | .apply => "apply"
+
+def tail (s : State) : String :=
+  toString (serial s.zone s.cfg.origin) ++ " " ++ toString s.journal.length ++ " " ++ showZone s.zone
+
+/-- split `P r… U r…` -/
+def splitPU (toks : List String) : Option (List String × List String) :=
+  match toks with
+  | "P" :: rest =>
+    let p := rest.takeWhile (· ≠ "U")
+    match rest.dropWhile (· ≠ "U") with
+    | "U" :: u => some (p, u)
+    | _ => none
+  | _ => none
+
+def beginWith (journaled : Bool) (origin : String) (recs : List String) : Option State := do
+  let o ← parseName origin
+  let recs ← recs.mapM parseRec
+  let cfg : Cfg := { origin := o.toLowercase }
+  let z := recs.foldl (fun z r => (upsert cfg.zclass z r).1) ([] : Zone)
+  pure { cfg := cfg, zone := z, journal := if journaled then persist z [] else [], journaled := journaled }
+
+def step (s : State) (toks : List String) : State × String :=
+  match toks with
+  | "begin" :: origin :: recs =>
+    match beginWith false origin recs with
+    | some s' => (s', "begin " ++ tail s')
+    | none => (s, "bad-op")
+  | "beginj" :: origin :: recs =>
+    match beginWith true origin recs with
+    | some s' => (s', "begin " ++ tail s')
+    | none => (s, "bad-op")
+  | ["end"] => (init, "end")
+  | "upd" :: rest =>
+    match splitPU rest with
+    | none => (s, "bad-op")
+    | some (p, u) =>
+      match p.mapM parseRec, u.mapM parseRec with
+      | some p, some u =>
+        let r := updateJ s.cfg s.zone s.journal { prereqs := p, updates := u }
+        let s' := { s with zone := r.1, journal := if s.journaled then r.2.1 else [] }
+        (s', showStage r.2.2.1 ++ " " ++ showRes r.2.2.2 ++ " " ++ tail s')
+      | _, _ => (s, "bad-op")
+  | "updf" :: rest =>
+    -- the same message through `ZoneHandler::update` (signed, authorised): no stage in the answer
+    match splitPU rest with
+    | none => (s, "bad-op")
+    | some (p, u) =>
+      match p.mapM parseRec, u.mapM parseRec with
+      | some p, some u =>
+        let r := updateJ s.cfg s.zone s.journal { prereqs := p, updates := u }
+        let s' := { s with zone := r.1, journal := if s.journaled then r.2.1 else [] }
+        (s', "full " ++ showRes r.2.2.2 ++ " " ++ tail s')
+      | _, _ => (s, "bad-op")
+  | "raw" :: recs =>
+    match recs.mapM parseRec with
+    | some u =>
+      let r := liveUpdateRecords s.cfg s.zone s.journal u
+      let s' := { s with zone := r.1, journal := if s.journaled then r.2.1 else [] }
+      (s', "raw " ++ showRes r.2.2 ++ " " ++ tail s')
+    | none => (s, "bad-op")
+  | "pre" :: recs =>
+    match recs.mapM parseRec with
+    | some p =>
+      (s, "pre " ++ (match verifyPrereqs s.cfg s.zone p with | some e => showRc e | none => "ok"))
+    | none => (s, "bad-op")
+  | "cut" :: k :: _ =>
+    match k.toNat? with
+    | some k =>
+      match recover s.cfg (s.journal.take k) with
+      | some z => (s, "rec ok " ++ tail { s with zone := z, journal := s.journal.take k })
+      | none => (s, "rec err")
+    | none => (s, "bad-op")
+  | "restart" :: k :: _ =>
+    match k.toNat? with
+    | some k =>
+      match recover s.cfg (s.journal.take k) with
+      | some z =>
+        let s' := { s with zone := z, journal := s.journal.take k }
+        (s', "rec ok " ++ tail s')
+      | none => (s, "rec err")
+    | none => (s, "bad-op")
+  | _ => (s, "bad-op")
 
 end HickoryVerif.Drv.C12
